@@ -29,6 +29,7 @@ type integArg struct {
 	RealTx  bool   `json:"real_tx"` // caller begins a real global transaction at the TC
 	Name    string `json:"name"`   // transaction name for RealTx / callee scope
 	Outcome string `json:"callee_outcome"` // nil | error
+	Stale   map[string]string `json:"stale"` // entries already present on the caller's outbound carrier (a middle service forwarding what it received)
 }
 
 type integRes struct {
@@ -110,6 +111,9 @@ func init() {
 				if a.Side == "server" {
 					return invoker(context.Background(), "/svc/m", nil, nil, nil)
 				}
+				if len(a.Stale) > 0 {
+					ctx = metadata.NewOutgoingContext(ctx, metadata.New(a.Stale))
+				}
 				return sgrpc.ClientTransactionInterceptor(ctx, "/svc/m", nil, nil, nil, invoker)
 			case "gin":
 				eng := gin.New()
@@ -165,7 +169,11 @@ func init() {
 					}
 					return f.Invoke(context.Background(), provider, invocation.NewRPCInvocation("m", nil, att))
 				}}
-				return f.Invoke(ctx, wireInv, invocation.NewRPCInvocation("m", nil, map[string]interface{}{})).Error()
+				pre := map[string]interface{}{}
+				for k, v := range a.Stale {
+					pre[k] = v
+				}
+				return f.Invoke(ctx, wireInv, invocation.NewRPCInvocation("m", nil, pre)).Error()
 			}
 			return fmt.Errorf("unknown integration kind %q", a.Kind)
 		}
